@@ -22,6 +22,7 @@ if os.path.exists(os.path.join(d, "meta.json")):
 if props is None:
     props = [meta["property"]] if meta.get("property") else [os.path.basename(os.path.dirname(d))]
 REPO = os.environ.get("PRAATIO_REPO", "/repo")
+VROOT = os.path.dirname(os.path.dirname(os.path.abspath(__file__)))
 env = dict(os.environ, PYTHONPATH=REPO, PYTHONDONTWRITEBYTECODE="1", PRAATIO_REPO=REPO)
 def sh(cmd, **kw):
     return subprocess.run(cmd, shell=True, capture_output=True, text=True, env=env, **kw)
@@ -38,14 +39,14 @@ try:
     res["demo_with_patch_rc"] = dm.returncode
     res["checks"] = {}
     for p in props:
-        c = subprocess.run(["/venv/bin/python", "-B", "/verif/check.py", p, "--tier", tier], capture_output=True, text=True, env=env)
+        c = subprocess.run(["/venv/bin/python", "-B", os.path.join(VROOT, "check.py"), p, "--tier", tier], capture_output=True, text=True, env=env)
         lines = [l for l in c.stdout.splitlines() if not l.startswith("KNOWN-FINDING")]
         first = next((l for l in lines if l.startswith("  monitor")), "")
         res["checks"][p] = {"rc": c.returncode, "first": first.strip()[:300], "summary": lines[-1][:200] if lines else ""}
 finally:
     sh("git -C %s checkout -- . && git -C %s clean -fdq -- praatio tests examples" % (REPO, REPO))
     if "VERIF_REPLAY_DIR" not in os.environ:
-        sh("rm -rf /verif/replays")
+        sh("rm -rf %s/replays" % VROOT)
 dm2 = sh("cd %s && /venv/bin/python %s" % (REPO, os.path.join(d, "demo.py")), timeout=600)
 res["demo_clean_rc"] = dm2.returncode
 res["repo_clean"] = sh("git -C %s status --porcelain" % REPO).stdout.strip() == ""
